@@ -92,6 +92,12 @@ fn main() {
             let out = p.exec(&mut ctx, &case);
             println!("{}", serde_json::to_string_pretty(&out).unwrap());
         }
+        "count-small" => {
+            let n: usize = args[2].parse().unwrap();
+            let t0 = std::time::Instant::now();
+            let all = gen::small::all_terms(n);
+            println!("{} terms with <= {} nodes in {:?}", all.len(), n, t0.elapsed());
+        }
         "probe-lazy" => {
             use gluon::ThreadExt;
             let vm = gl::new_vm(gl::Settings::default());
